@@ -642,9 +642,11 @@ class HistIO(Hist):
         elif mode == 'gates-reversed':
             decl = ins + gs[::-1] + outs
         used_alias = False
+        trailing = False
         for kind, x in decl:
             if rng.random() < 0.15:
-                lines.append(rng.choice(('', '# a comment', '#', '# INPUT(fake)')))
+                lines.append(rng.choice(('', '# a comment', '#', '# INPUT(fake)', '   ', '\t', '  # an indented comment')))
+            n_before = len(lines)
             if kind == 'in':
                 lines.append(f'INPUT({x})')
             elif kind == 'out':
@@ -667,6 +669,10 @@ class HistIO(Hist):
                 elif case == 'mixed':
                     name = ''.join(ch.lower() if rng.random() < 0.5 else ch for ch in name)
                 lines.append(f'{x} = {name}({", ".join(ops)})')
+            if len(lines) > n_before and rng.random() < 0.08:
+                # a comment after the declaration, to the end of the line
+                lines[-1] += rng.choice(('  # note', ' # OUTPUT(fake)', '\t#', ' #x = AND(a, b)'))
+                trailing = True
         text = '\n'.join(lines)
         if rng.random() < 0.5:
             text += '\n'
